@@ -26,8 +26,8 @@ fn spec(t: Tier) -> Spec {
     Spec {
         id: "C03",
         level: "exploration",
-        rule: format!("every ordered forest of directories, files and links to a directory (walked under -P and -L) with <= {n} nodes (sibling names B,Z,_,a,a.b,é: byte order differs from case-folded order) x every subset of its directories (and the starting point) selected for pruning x 3 expression forms (path alternation before -prune -o -print; -print before the prune test; -name TEST -prune -o -print) x (pre-order | -depth | unreachable -delete) x 5 depth windows x (-sorted: exact sequence | unsorted: multiset + parent/child order); non-trivial = case with a non-empty prune set"),
-        bound: json!({"max_nodes": n, "forms": ["paths-prune-or-print", "print-then-prune", "name-prune-or-print"], "orders": ["pre", "-depth", "unreachable -delete"], "windows": ["none","min1","max1","max2","min1 max2"]}),
+        rule: format!("every ordered forest of directories, files and links to a directory (walked under -P and -L) with <= {n} nodes (sibling names B,Z,_,a,a.b,é: byte order differs from case-folded order) x every subset of its directories (and the starting point) selected for pruning x 3 expression forms (path alternation before -prune -o -print; -print before the prune test; -name TEST -prune -o -print) x (pre-order | -depth | unreachable -delete, the latter two written before and after the expression holding -prune) x 5 depth windows x (-sorted: exact sequence | unsorted: multiset + parent/child order); non-trivial = case with a non-empty prune set"),
+        bound: json!({"max_nodes": n, "forms": ["paths-prune-or-print", "print-then-prune", "name-prune-or-print"], "orders": ["pre", "-depth", "unreachable -delete", "-depth after", "unreachable -delete after"], "windows": ["none","min1","max1","max2","min1 max2"]}),
         assumptions: vec!["-prune's truth value is true in both walk orders (the statement only fixes its effect on the walk)".into()],
         shards: 0,
         wall_cap_s: t.pick(300, 3600),
@@ -75,6 +75,10 @@ enum Order {
     Pre,
     Depth,
     Delete,
+    /// -depth written AFTER the expression that holds -prune
+    DepthAfter,
+    /// an unreachable -delete written AFTER the expression that holds -prune
+    DeleteAfter,
 }
 const WINDOWS: [(Option<usize>, Option<usize>); 5] = [
     (None, None),
@@ -111,7 +115,7 @@ fn argv(fs: &Fs, c: &Case) -> Vec<String> {
         a.extend(["-maxdepth".into(), m.to_string()]);
     }
     match c.order {
-        Order::Pre => {}
+        Order::Pre | Order::DepthAfter | Order::DeleteAfter => {}
         Order::Depth => a.push("-depth".into()),
         Order::Delete => a.extend(["(", "-false", "-delete", ")", "-o"].map(String::from)),
     }
@@ -146,6 +150,11 @@ fn argv(fs: &Fs, c: &Case) -> Vec<String> {
             a.push(c.name.clone());
             a.extend(["-prune", "-o", "-print", ")"].map(String::from));
         }
+    }
+    match c.order {
+        Order::DepthAfter => a.push("-depth".into()),
+        Order::DeleteAfter => a.extend(["(", "-true", "-o", "-delete", ")"].map(String::from)),
+        _ => {}
     }
     a
 }
@@ -269,7 +278,7 @@ fn run_tree(ctx: &mut Ctx, forest: &[Shape]) {
                 .collect()
         };
         for (set, name) in sets {
-            for order in [Order::Pre, Order::Depth, Order::Delete] {
+            for order in [Order::Pre, Order::Depth, Order::Delete, Order::DepthAfter, Order::DeleteAfter] {
                 for win in WINDOWS {
                     for (sorted, follow) in [true, false].into_iter().flat_map(|s| follows.iter().map(move |f| (s, *f))) {
                         let c = Case { form, order, win, sorted, follow, set: set.clone(), name: name.clone() };
